@@ -18,7 +18,7 @@ def run(ctx):
     ch = ["--child", child]
     ctx.run_shards(b, ["--mode", "cmdline", "--len", "3"] + ch, label="command lines")
     ctx.run_shards(b, ["--mode", "launch"] + ch, label="launch matrix")
-    ctx.run_shards(b, ["--mode", "args", "--len", "4" if q else "5"] + ch, label="argument vectors")
+    ctx.run_shards(b, ["--mode", "args", "--len", "4" if q else "6"] + ch, label="argument vectors")
     c = ctx.counters
     ev = sum(c.get(k, 0) for k in ("argument_vectors", "command_lines", "launches", "io_runs", "exit_code_runs"))
     cov = {"evaluations": int(ev), "distinct_nontrivial": int(c.get("distinct_nontrivial", 0)),
@@ -27,7 +27,7 @@ def run(ctx):
                    "mapped to (character, argument) sequences; command lines: every line of <= 3 words over {a a\\\\b \"\" \"a b\" \"a\\\\\"b\" a\"b c\"d \"a\\\\b\"} through "
                    "Process::open(commandLine) against a helper child that echoes its argv, with a reference splitter and a watchdog; launch: 5 argument vectors x "
                    "2 overloads x 3 environments, 4 stream combinations with stdout x 6 payload sizes around the pipe capacity (stdin digest, stdout/stderr to EOF), exit codes 0..255"
-                   % (4 if q else 5),
+                   % (4 if q else 6),
            "exhaustive": True}
     return ctx.finish("exploration", cov, ["GNU-only getopt features (prefix matching of long names, short options with optional arguments) are outside the statement",
                                           "the sandbox provides vfork/exec; the helper child is built from /verif"], tags=["C20"])
